@@ -3,7 +3,7 @@
    Model: Model/Consumer.v (afkak/consumer.py:290-1131).  Never weaken a statement here. *)
 From AV Require Import Base.Util Model.Consumer Proofs.ConsumerBase Proofs.ConsumerFrame Proofs.ConsumerC13
   Proofs.ConsumerStop Proofs.ConsumerStopOk Proofs.ConsumerC13Top Proofs.ConsumerInv Proofs.ConsumerShut Proofs.ConsumerRun
-  Proofs.ConsumerFuel Proofs.ConsumerShutFlags.
+  Proofs.ConsumerFuel Proofs.ConsumerShutFlags Proofs.ConsumerNotStarted.
 Open Scope Z_scope.
 
 (* In EVERY state in which stop() can be called (not already inside stop(), not inside the auto-commit timer callback
@@ -116,6 +116,23 @@ Theorem C13_reachable_invariant : forall n0 fuel evs c buf,
   Forall (fun t => Reach n0 (t_pre t) /\ Reach n0 (t_post t)) (run_steps fuel (init c n0 buf) evs).
 Proof. intros. apply reach_run; [apply reach_init | assumption]. Qed.
 Print Assumptions C13_reachable_invariant.
+
+(* Whenever the consumer is not started, nothing of its fetch side is left, in EVERY state between two events of every run:
+   no request outstanding or parked, no processor result awaited, no block in progress, no retry timer, no auto-commit
+   timer.  This covers the states after a stop() made from inside the processor (and after whatever ran after it in the
+   same event), after the stop() at the end of a shutdown, and after a stop() called while another was impossible.
+   (The commit side is not part of it: the code allows a manual commit() on a stopped consumer.) *)
+Theorem C13_not_started_idle : forall n0 fuel evs c buf,
+  all_fuel_ok (run_steps fuel (init c n0 buf) evs) = true ->
+  forallb (fun t => not_started_idle (t_post t)) (run_steps fuel (init c n0 buf) evs) = true.
+Proof. intros. apply (not_started_run n0); [apply reach_init | apply N_init | assumption]. Qed.
+Print Assumptions C13_not_started_idle.
+(* ... by induction over all nested executions (N: not started => no processor result awaited, no auto-commit timer, no
+   block in progress; on entry to the message loop the block in progress is exempt, it is cleared on every way out) *)
+Theorem C13_not_started_idle_nested : forall fuel k s r s' o,
+  run fuel k s = (r, s', o) -> fuel_ok o = true -> PreN k s -> N s'.
+Proof. exact run_n. Qed.
+Print Assumptions C13_not_started_idle_nested.
 
 (* C13_quiescent_after_stop over all runs: EVERY stop() of a running consumer, in every run, returns (never raises) and
    leaves the consumer quiescent, having sent / scheduled / delivered nothing; the retry limit is the configured one *)
